@@ -382,7 +382,7 @@ def evaluate_z3_re_full_set(expr: z3.ExprRef, _) -> Maybe[Z3EvalResult]:
     if expr.decl().kind() != z3.Z3_OP_RE_FULL_SET:
         return Nothing
 
-    return Some(((), ".*?"))
+    return Some(((), "(?s:.*)"))
 
 
 # Boolean Combinations
